@@ -52,6 +52,13 @@ def run(env, tier, seed, broken=None):
         '%s mk() { %s (%s i = 0; i < 2; i = i + 1) { %s bump() { i = i + 10; %s i; } %s bump; } }\n%s b = mk();\n%s b();\n%s b();\n' % (FUN, FOR, VAR, FUN, RETURN, RETURN, VAR, PRINT, PRINT),
         '%s out = 0;\n%s f() { %s (%s j = 0; j < 3; out = out + 1) { j = j + 1; %s (j == 2) { %s j; } } }\n%s f();\n%s out;\n' % (VAR, FUN, FOR, VAR, IF, RETURN, PRINT, PRINT),
     ]
+    extra += [
+        '%s mk(x, mode) {\n  %s (mode == 0) %s 0;\n  %s %s (mode == 1) { %s g() { x = x + 1; %s x; } %s g; }\n  %s { %s h() { x = x + 100; %s x; } %s h; }\n}\n%s a = mk(0, 1);\n%s a();\n%s a();\n%s b = mk(100, 2);\n%s b();\n%s a();\n%s c = mk(500, 1);\n%s c();\n%s a();\n%s b();\n%s mk(7, 0);\n%s a();\n'
+        % (FUN, IF, RETURN, ELSE, IF, FUN, RETURN, RETURN, ELSE, FUN, RETURN, RETURN, VAR, PRINT, PRINT, VAR, PRINT, PRINT, VAR, PRINT, PRINT, PRINT, PRINT, PRINT),
+        '%s mk(x) { %s (x > 0) { %s (x > 1) { %s g() { %s x; } %s g; } } %s %s; }\n%s p = mk(5);\n%s q = mk(9);\n%s p();\n%s q();\n%s p();\n' % (FUN, WHILE, IF, FUN, RETURN, RETURN, RETURN, NIL, VAR, VAR, PRINT, PRINT, PRINT),
+        '%s pick(a, pick, b) { %s pick; }\n%s pick(1, "two", 3);\n%s sel(sel) { %s sel + 1; }\n%s sel(41);\n' % (FUN, RETURN, PRINT, FUN, RETURN, PRINT),
+        '%s acc(n) { %s tot = 0; %s add(k) { tot = tot + k; %s tot; } %s (n > 0) { %s add(n) + acc(n - 1); } %s add(0); }\n%s acc(4);\n%s acc(2);\n' % (FUN, VAR, FUN, RETURN, IF, RETURN, RETURN, PRINT, PRINT),
+    ]
     for e in extra:
         cases.append({'id': 'e%d' % n, 'src': e}); n += 1
     for i in range(1000 if tier == 'quick' else 30000):
